@@ -27,7 +27,7 @@ FACT_T = [1, 2, 3, 4, 5, 7, 8, 16, 33, 64]
 
 def axes(tier, seed):
     return dict(shapes="[2..10]^2" if tier == "quick" else "[2..20]^2 + (33,65),(100,7),(7,100),(64,64),(65,65)",
-                factors=FACT_Q if tier == "quick" else FACT_T, header=["CDELT", "CD (diagonal)", "CD (rotated 17 deg)"], input=["file", "hdulist"],
+                factors=FACT_Q if tier == "quick" else FACT_T, header=["CDELT", "CD (diagonal)", "CD (rotated 17 deg)", "CD + CDELT"], input=["file", "hdulist"],
                 image=["ramp", "nodelinear", "arbitrary"])
 
 
@@ -89,6 +89,9 @@ def _mkhdu(img, shape, cd, seed):
     """cd: False (CDELT), True (diagonal CD matrix) or "rot" (CD matrix of a rotated image: non-zero CD1_2, CD2_1)"""
     hdr = wz.make_header("SIN", (33.0 + core.seed_shift(seed, 2, 50), -27.0), 15.0 / 3600, shape,
                          crpix=(shape[1] / 2.0 + 0.5, shape[0] / 3.0 + 1.25), cd_matrix=bool(cd))
+    if cd == "both":
+        # legal FITS: CDELT kept beside a (diagonal) CD matrix for old readers
+        hdr.update(CDELT1=hdr["CD1_1"], CDELT2=hdr["CD2_2"])
     if cd == "rot":
         c_, s_ = np.cos(np.radians(17.0)), np.sin(np.radians(17.0))
         d_ = 15.0 / 3600
@@ -106,11 +109,11 @@ def ev_roundtrip(case, ctx):
     d = os.environ["VERIF_SCRATCH"]
     factors = FACT_Q if ctx.tier == "quick" else FACT_T
     for factor in factors:
-        for cd in (False, True, "rot"):
+        for cd in (False, True, "rot", "both"):
             for inp in ("file", "hdulist"):
                 for kind in ("ramp", "nodelinear", "arbitrary"):
                     ctx.count("roundtrip")
-                    sig = "shape=%dx%d,f=%d,%s,%s,%s" % (rows, cols, factor, {False: "CDELT", True: "CD", "rot": "CDrot"}[cd], inp, kind)
+                    sig = "shape=%dx%d,f=%d,%s,%s,%s" % (rows, cols, factor, {False: "CDELT", True: "CD", "rot": "CDrot", "both": "CD+CDELT"}[cd], inp, kind)
                     img = make_image(kind, shape, factor, ctx.seed)
                     hl, hdr = _mkhdu(img, shape, cd, ctx.seed)
                     try:
@@ -147,7 +150,7 @@ def ev_roundtrip(case, ctx):
                         ctx.violation("expanded shape %r != %r (%s)" % (odata.shape, shape, sig), "shape|" + sig)
                         ctx.outcome("shape")
                         continue
-                    for k in (WCSKEYS_CD if cd else WCSKEYS_CDELT):
+                    for k in ((WCSKEYS_CD + ["CDELT1", "CDELT2"]) if cd == "both" else WCSKEYS_CD if cd else WCSKEYS_CDELT):
                         if k not in ohdr or abs(ohdr[k] - hdr[k]) > 1e-12 * max(1.0, abs(hdr[k])):
                             ctx.violation("%s not restored: %r -> %r (%s)" % (k, hdr[k], ohdr.get(k), sig),
                                           "wcskey_%s|%s" % (k, sig))
